@@ -6,6 +6,9 @@
 EXTENDS ConsoleModel
 
 MCArgs     == {<<0, 0>>, <<0, 1>>, <<0, 2>>, <<0, 3>>, <<0, 4>>, <<32768, 0>>, <<65535, 65534>>, <<65535, 65535>>}
+\* values whose limbs disagree about being in range (65536, 65538, 131073: a valid-looking low limb under a non-zero
+\* high limb; 65535: a full low limb), explored on a few geometries
+MCArgsLimb == {<<0, 1>>, <<0, 2>>, <<1, 0>>, <<1, 2>>, <<2, 1>>, <<0, 65535>>}
 MCArgsQ    == {<<0, 0>>, <<0, 1>>, <<0, 2>>, <<0, 3>>, <<32768, 0>>, <<65535, 65534>>, <<65535, 65535>>}
 MCArgsH    == {<<0, 0>>, <<0, 1>>, <<0, 2>>, <<65535, 65535>>}
 MCArgsHist == {<<0, 0>>, <<0, 1>>, <<65535, 65535>>}
@@ -15,6 +18,7 @@ MCFillCols == {<<0, 9>>}
 \* text console colours: palette boundary 15/16 and far out of range (Write replaces > 15 by the default colour)
 MCVgaCols  == {<<7, 1>>, <<2, 15>>, <<15, 0>>, <<16, 1>>, <<7, 16>>, <<17, 255>>, <<128, 14>>, <<0, 128>>, <<255, 7>>, <<14, 17>>}
 MCVgaFill  == {<<14, 15>>, <<16, 255>>}
+MCVgaColsH == {<<7, 1>>, <<16, 15>>}                \* depth-2 histories
 
 \* synthetic font: 256 glyphs of gh rows, bpr bytes per row, position-dependent bits
 Fd(gw, gh) == LET bpr == (gw + 7) \div 8 IN [i \in 1..(256 * gh * bpr) |-> (i * 73 + (i \div 7) * 19 + 41) % 256]
@@ -24,15 +28,26 @@ L555 == <<10, 5, 5, 5, 0, 5>>
 L565 == <<11, 5, 5, 6, 0, 5>>
 L888 == <<16, 8, 8, 8, 0, 8>>
 LBGR == <<0, 8, 8, 8, 16, 8>>
+L10  == <<20, 10, 10, 10, 0, 10>>          \* 2:10:10:10, fields wider than the 8-bit palette components
+LG0  == <<11, 5, 5, 0, 0, 5>>              \* a component without bits
 
-Fb(id, cols, rows, gw, bpp, ci, offY, xw, xh) ==
+\* cols x rows cells of a gw x 2 font, xw spare pixel columns, xh spare pixel rows, pad bytes of row padding
+FbP(id, cols, rows, gw, bpp, ci, offY, xw, xh, pad) ==
   LET w == cols * gw + xw  B == (bpp + 1) \div 8 IN
-  [id |-> id, cons |-> "fb", w |-> w, h |-> offY + rows * 2 + xh, pitch |-> w * B + 3, bpp |-> bpp, ci |-> ci,
+  [id |-> id, cons |-> "fb", w |-> w, h |-> offY + rows * 2 + xh, pitch |-> w * B + pad, bpp |-> bpp, ci |-> ci,
    gw |-> gw, gh |-> 2, bpr |-> (gw + 7) \div 8, offY |-> offY, clear |-> 0, dfg |-> 7, dbg |-> 0, fd |-> Fd(gw, 2), pal |-> Pal]
+Fb(id, cols, rows, gw, bpp, ci, offY, xw, xh) == FbP(id, cols, rows, gw, bpp, ci, offY, xw, xh, 3)
 Vga(id, cols, rows) ==
   [id |-> id, cons |-> "vga", w |-> cols, h |-> rows, pitch |-> cols, bpp |-> 0, ci |-> L8,
    gw |-> 1, gh |-> 1, bpr |-> 0, offY |-> 0, clear |-> 32, dfg |-> 7, dbg |-> 0, fd |-> <<>>, pal |-> <<>>]
 
+\* edges of the quantifier: grids without cells (framebuffer narrower than a glyph; no room for a text line below the
+\* logo; logo filling the whole framebuffer; text consoles with 0 columns / 0 rows), mask fields of 0 and of 10 bits,
+\* pitch equal to the row size, nothing spare at all, the widest font (16 pixels, mask walk ends on a byte boundary)
+MCEdgeG == {Fb(87, 0, 2, 8, 8, L8, 0, 5, 0), Fb(88, 2, 0, 9, 16, L565, 1, 3, 1), Fb(89, 2, 0, 8, 8, L8, 1, 0, 0),
+            Fb(90, 2, 2, 8, 32, L10, 0, 3, 1), Fb(91, 2, 2, 9, 16, LG0, 1, 3, 0),
+            FbP(92, 2, 2, 9, 16, L565, 1, 3, 1, 0), FbP(93, 3, 1, 8, 24, L888, 0, 0, 0, 0), Fb(94, 2, 2, 16, 8, L8, 1, 1, 1),
+            Vga(120, 0, 3), Vga(121, 2, 0)}
 \* every grid 1..3 x 1..3, both fonts, depths 8 and 16, logo 0/1 (ids 1..72; the full scope takes the 36 of them in
 \* which the logo height alternates with font, depth and grid parity)
 GridFb(cols, rows, gi, bi, offY) ==
@@ -42,10 +57,12 @@ GridFb(cols, rows, gi, bi, offY) ==
 MCFullG == {GridFb(c, r, gi, bi, (gi + bi + c + r) % 2) : c \in 1..3, r \in 1..3, gi \in 0..1, bi \in 0..1}
              \cup {Fb(81, 2, 2, 9, 15, L555, 1, 3, 1), Fb(82, 2, 2, 9, 24, L888, 1, 3, 1), Fb(83, 2, 2, 8, 32, L888, 0, 0, 1),
                    Fb(84, 2, 1, 9, 24, LBGR, 0, 2, 0), Fb(85, 3, 2, 8, 15, L555, 0, 1, 0), Fb(86, 1, 2, 9, 32, LBGR, 1, 5, 0)}
+             \cup MCEdgeG
              \cup {Vga(100 + (c - 1) * 3 + r, c, r) : c \in 1..4, r \in 1..3}
 MCQuickG == {GridFb(2, 2, 1, 1, 1), GridFb(3, 2, 0, 0, 0), Fb(81, 2, 2, 9, 15, L555, 1, 3, 1), Vga(112, 4, 3)}
 \* design mutants and histories: a handful of geometries is enough
-MCFewG == {GridFb(2, 2, 1, 1, 1), GridFb(3, 2, 1, 0, 1), Fb(81, 2, 2, 9, 15, L555, 1, 3, 1), Vga(112, 4, 3)}
+MCFewG == {GridFb(2, 2, 1, 1, 1), GridFb(3, 2, 1, 0, 1), Fb(81, 2, 2, 9, 15, L555, 1, 3, 1), Vga(112, 4, 3),
+           Fb(88, 2, 0, 9, 16, L565, 1, 3, 1), Fb(87, 0, 2, 8, 8, L8, 0, 5, 0), Fb(90, 2, 2, 8, 32, L10, 0, 3, 1), Vga(120, 0, 3)}
 
 MCHistG == {GridFb(2, 2, 1, 1, 1), Fb(85, 3, 2, 8, 15, L555, 0, 1, 0), Vga(112, 4, 3)}
 ====
